@@ -374,7 +374,8 @@ PROPS = {
     'C16': {'legs': [V('agents')], 'design': '§5 C16'},
     'C17': {'legs': [V('agents')], 'design': '§5 C17'},
     'C18': {'legs': [V('py'), V('book'),
-                     {'engine': 'python', 'name': 'cpython_orderbook', 'n': 60, 'bound': '60 seeded random call sequences (5-40 calls: place incl. off-grid and market, cancel, modify, toggles) on bourse.core.OrderBook through the compiled extension module under CPython: ids, documented tuple positions and encodings, ValueError / OverflowError leave the object unchanged, every getter equals the value recomputed from get_orders()'}],
+                     {'engine': 'python', 'name': 'cpython_orderbook', 'n': 60, 'bound': '60 seeded random call sequences (5-40 calls: place incl. off-grid and market, cancel, modify, toggles) on bourse.core.OrderBook through the compiled extension module under CPython: ids, documented tuple positions and encodings, ValueError / OverflowError leave the object unchanged, every getter equals the value recomputed from get_orders()'},
+                     {'engine': 'python', 'name': 'cpython_rust_twin', 'mode': 'C18twin', 'n': 600, 'n_thorough': 4000, 'needs_replay': True, 'bound': '600 (thorough: 4000) seeded random call scripts (10-60 calls; half of them confined to one bid and one ask price so that queue position is visible in the trades) over the non-numpy API, alternately on bourse.core.OrderBook (place incl. market / off-grid / lowest prices, cancel, modify incl. restated price or volume and None, set_time, toggles) and bourse.core.StepEnv (the same plus step, several steps per script, batches whose processing order is visible), executed on the compiled extension module under CPython and, call by call, on the Rust core (bourse_book::OrderBook, bourse_de::Env with Xoroshiro128StarStar::seed_from_u64(seed)) by the replay runner: every return value, ValueError, and after every call orders, trades, statuses, touch prices, volumes, time, traded volume and every history series must agree, in the documented encodings'}],
             'design': '§5 C18'},
     'C20': {'legs': [{'engine': 'derive'}], 'design': '§5 C20'},
     'C19': {'legs': [V('py'), V('env'),
@@ -585,6 +586,7 @@ def run_canaries(leg, pid, log):
 
 
 _ext = None
+TIER = 'quick'
 
 
 def build_extension():
@@ -607,7 +609,12 @@ def run_python_bounded(pid, leg, seed):
     if not so:
         raise Undecided('the PyO3 extension module does not build from this tree (bounded stand-in %s)' % leg['name'])
     t = time.time()
-    cmd = ['/opt/veriftools/pyvenv/bin/python', os.path.join(HERE, 'py_bounded.py'), so, pid, str(seed), str(leg['n'])]
+    cmd = ['/opt/veriftools/pyvenv/bin/python', os.path.join(HERE, 'py_bounded.py'), so, leg.get('mode', pid), str(seed), str(leg.get('n_thorough', leg['n']) if TIER == 'thorough' else leg['n'])]
+    if leg.get('needs_replay'):
+        rb = build_replay()
+        if not rb:
+            raise Undecided('the replay runner does not build against this tree (bounded stand-in %s)' % leg['name'])
+        cmd.append(rb)
     p = subprocess.run(cmd, capture_output=True, text=True)
     res = {'name': leg['name'], 'bound': leg['bound'], 'cmd': ' '.join(cmd), 'seconds': round(time.time() - t, 1), 'label': 'bounded'}
     try:
@@ -671,7 +678,8 @@ def main():
     ap.add_argument('--no-cache', action='store_true')
     a = ap.parse_args()
     pid = a.pid
-    global NO_CACHE
+    global NO_CACHE, TIER
+    TIER = a.tier
     NO_CACHE = a.no_cache or a.tier == 'thorough'
     seed = int(os.environ.get('VERIF_SEED', '0') or 0)
     t0 = time.time()
